@@ -197,6 +197,31 @@ class ThreadedSession:
                 return True
         return False
 
+    def transfer_pending(self):
+        return any(type(h).__name__ == "GeckoStatusBlockProtocolHandler" for h in self.spa._receive_handlers)
+
+    def settle(self, limit=4000):
+        """pump until no status-block transfer is pending and nothing waits in the socket"""
+        for _ in range(limit):
+            if not self.transfer_pending() and not self.sock.inbox:
+                return True
+            self.pump(1)
+        return False
+
+    def next_periodic_refresh(self, limit_s=200.0, dt=0.05):
+        """run until the ping thread's next periodic refresh has been requested and has completed; the harness
+        never calls refresh() itself while the ping thread runs: two refresh requests in flight at once share
+        the blocking structure's assembly state (DESIGN: observed outside the listed properties)"""
+        n0 = sum(1 for (_, d, _) in self.sock.wire if (inner(d) or b"").startswith(b"STATU"))
+        started = False
+        for _ in range(int(limit_s / dt)):
+            self.pump(1, dt=dt)
+            if not started:
+                started = sum(1 for (_, d, _) in self.sock.wire if (inner(d) or b"").startswith(b"STATU")) > n0
+            elif not self.transfer_pending() and not self.sock.inbox:
+                return True
+        return False
+
     def inject(self, data):
         self.sock.inbox.append((data, self.peer.addr))
 
